@@ -2,16 +2,17 @@ SPECIFICATION Spec
 CONSTANTS
   Times = {0}
   Prices = {2}
-  Qtys = {1, 2}
+  Qtys = {0, 2}
+  NegQtys = {1}
   BalInit = {600}
   FeePcts = {0, 50}
   Lats = {2}
   Sinces = {0, 2}
-  OpenCids = {"o1"}
+  OpenCids = {"o1", "o3"}
   MaxTrades = 2
   ClockSlack = TRUE
   IdSlack = 1
 INVARIANT Inv
-PROPERTIES AcceptIff ExactDebit RejectPure FreshIdsStep OneFill Notif11 QueriesReflect ConfigFixed Clock
+PROPERTIES AcceptIff ExactDebit RejectPure FreshIdsStep OneFill Notif11 QueriesReflect ConfigFixed Clock OfflineStep
 VIEW View
 CHECK_DEADLOCK FALSE
